@@ -4,9 +4,9 @@ META = dict(
     explanation="Filter callback only: the function literal readFiles hands to fastwalk is lifted verbatim from the current source and called on symbolic "
                 "paths (L<=5 over {., /, a, b}) for files and directories under every combination of file/dir/hidden and a skip list: pruning, "
                 "listing, trailing separator and ./-trimming must be as documented.",
-    functions=["readFiles: walker callback (lifted)", "fzf.(*Reader).readFiles (whole, with fastwalk.Walk modelled over a tree description)", "fzf.trimPath", "path/filepath.Base (real code)", "strings.HasSuffix"],
-    outside=["fastwalk itself (each entry once, traversal order, symlink following)", "the file system", "symlinked directories (isSymlinkToDir calls os.Stat)", "trees other than the small fixed-shape ones of the tree harness (modelled walker; natively the real fastwalk on a scratch directory)"],
-    models=["fs.DirEntry stub (regular file or directory)", "sync.Mutex no-op"],
+    functions=["readFiles: walker callback (lifted)", "fzf.(*Reader).readFiles (whole, with fastwalk.Walk modelled over a tree description)", "fzf.trimPath", "fzf.parseWalkerOpts", "fzf.isSymlinkToDir (natively; modelled in the engine)", "path/filepath.Base (real code)", "strings.HasSuffix"],
+    outside=["fastwalk itself (each entry once, traversal order, symlink following)", "the file system", "whether a followed link to a directory is itself listed, and in which form (fzf lists it as `name/` under `file`; the property does not say)", "trees other than the small fixed-shape ones of the tree harness (modelled walker; natively the real fastwalk on a scratch directory)"],
+    models=["fs.DirEntry stub (regular file, directory or symbolic link)", "sync.Mutex no-op", "fastwalk.Walk: 40-line model over a tree description (callback once per entry, SkipDir, Follow, link-to-ancestor not descended), compared with the real fastwalk on a real scratch tree on the sampled paths and on every counterexample", "isSymlinkToDir answered from the tree description in the engine (os.Stat natively)"],
     assumptions=["'hidden entries' read as the man page defines `hidden`: hidden directories"],
 )
 
@@ -18,5 +18,10 @@ def suites(tier):
         cfg.update(follow=0, nmax=4 if q else 6)
         jobs.append(dict(id=jid("walk", cfg), func="zzH_C19_walkfn", cfg=cfg))
     for cfg in product(file=[0, 1], dir=[0, 1], hidden=[0, 1]):
+        cfg.update(follow=0, links=0)
         jobs.append(dict(id=jid("tree", cfg), func="zzH_C19_tree", cfg=cfg))
+    for cfg in product(file=[0, 1], dir=[0, 1], hidden=[0, 1], follow=[0, 1]):
+        cfg.update(links=1)
+        jobs.append(dict(id=jid("tree", cfg), func="zzH_C19_tree", cfg=cfg))
+    jobs.append(dict(id="opts", func="zzH_C19_opts", cfg=dict(nmax=3 if q else 4)))
     return [src_suite("src", jobs)]
